@@ -680,7 +680,46 @@ def unroll(func: ast.FunctionDef) -> tuple[ast.FunctionDef, bool]:
     from .core import _Rename
     changed = [False]
 
+    # locals bound once to a dict literal with constant keys and only read
+    # through `.items()`: `for k, v in table.items()` unrolls like a loop
+    # over the literal pairs (the values are evaluated where the literal
+    # stood, so they must be pure)
+    dict_tables = {}
+    _stores = {}
+    for n_ in ast.walk(func):
+        if isinstance(n_, ast.Name) and isinstance(n_.ctx, ast.Store):
+            _stores[n_.id] = _stores.get(n_.id, 0) + 1
+    for n_ in ast.walk(func):
+        if isinstance(n_, ast.Assign) and len(n_.targets) == 1 and isinstance(
+                n_.targets[0], ast.Name) and isinstance(
+                n_.value, ast.Dict) and n_.value.keys and all(
+                isinstance(k_, ast.Constant) for k_ in n_.value.keys) and \
+                _stores.get(n_.targets[0].id) == 1:
+            nm = n_.targets[0].id
+            uses = [x for x in ast.walk(func) if isinstance(x, ast.Name)
+                    and x.id == nm and isinstance(x.ctx, ast.Load)]
+            ok_ = True
+            for u_ in uses:
+                par = getattr(u_, "_parent", None)
+                gp = getattr(par, "_parent", None)
+                if not (isinstance(par, ast.Attribute) and par.attr == "items"
+                        and isinstance(gp, ast.Call) and gp.func is par):
+                    ok_ = False
+            if ok_ and uses:
+                dict_tables[nm] = n_.value
+
     def rows_of(tgt, it):
+        if isinstance(it, ast.Call) and isinstance(
+                it.func, ast.Attribute) and it.func.attr == "items" and \
+                not it.args:
+            d_ = it.func.value
+            if isinstance(d_, ast.Name) and d_.id in dict_tables:
+                d_ = dict_tables[d_.id]
+            if isinstance(d_, ast.Dict) and d_.keys and all(
+                    isinstance(k_, ast.Constant) for k_ in d_.keys):
+                it = ast.Tuple([ast.Tuple([k_, v_], ast.Load())
+                                for k_, v_ in zip(d_.keys, d_.values)],
+                               ast.Load())
         if not isinstance(it, (ast.Tuple, ast.List)) or not it.elts:
             return None
         tables = []
@@ -763,6 +802,7 @@ def unroll(func: ast.FunctionDef) -> tuple[ast.FunctionDef, bool]:
     new.body = expand(new.body)
     if changed[0]:
         new = _ConstGetattr().visit(new)
+        new = _ConstSetattr().visit(new)
         ast.fix_missing_locations(new)
         set_parents(new)
     return new, changed[0]
@@ -826,6 +866,23 @@ class _LiteralComp(ast.NodeTransformer):
                     return ast.copy_location(vals[0], node)
                 op = ast.And() if node.func.id == "all" else ast.Or()
                 return ast.copy_location(ast.BoolOp(op=op, values=vals), node)
+        return node
+
+
+class _ConstSetattr(ast.NodeTransformer):
+    """setattr(x, "name", v) as a statement -> x.name = v."""
+
+    def visit_Expr(self, node):
+        c = node.value
+        if isinstance(c, ast.Call) and isinstance(c.func, ast.Name) and \
+                c.func.id == "setattr" and len(c.args) == 3 and \
+                not c.keywords and isinstance(c.args[1], ast.Constant) and \
+                isinstance(c.args[1].value, str) and \
+                c.args[1].value.isidentifier():
+            return ast.copy_location(ast.Assign(
+                targets=[ast.Attribute(value=c.args[0], attr=c.args[1].value,
+                                       ctx=ast.Store())],
+                value=c.args[2]), node)
         return node
 
 
